@@ -298,6 +298,22 @@ class PathCtx:
         self.results.append(res)
         return res
 
+    def reachable(self, label: str, cond, detail=None) -> CheckResult:
+        """existential obligation: some input on this path satisfies `cond` (sat -> holds, with the witness kept as the model;
+        unsat -> violated: the situation can never occur; unknown -> unknown)."""
+        STATS["obligation_queries"] = STATS.get("obligation_queries", 0) + 1
+        r, s = self._query(_to_z3_bool(cond))
+        self.last_query = list(self.solver.assertions()) + [_to_z3_bool(cond)] if hasattr(self, "last_query") else None
+        if r == "sat":
+            res = CheckResult(label, "holds", None, detail, self.path_id)
+        elif r == "unsat":
+            w = self.witness()
+            res = CheckResult(label, "violated", w if w is not None else {}, detail, self.path_id)
+        else:
+            res = CheckResult(label, "unknown", None, detail, self.path_id)
+        self.results.append(res)
+        return res
+
     def ok(self, label: str, detail=None) -> CheckResult:
         res = CheckResult(label, "holds", None, detail, self.path_id)
         self.results.append(res)
